@@ -76,7 +76,8 @@ func executeCompaction(db *DB) (compactionMetadata *proto.CompactionMetadata, er
 	writer, err := sstables.NewSSTableStreamWriter(
 		sstables.WriteBasePath(writeFolder),
 		sstables.WithKeyComparator(skiplist.BytesComparator{}),
-		sstables.BloomExpectedNumberOfElements(numRecords))
+		// tables that consist of deleted keys only compact into a table without records, the writer needs at least one
+		sstables.BloomExpectedNumberOfElements(max(numRecords, 1)))
 	if err != nil {
 		return nil, err
 	}
